@@ -363,10 +363,22 @@ func Main(property string, body func(c *Ctx)) {
 	rand.Reader = &detRand{key: []byte(fmt.Sprintf("verif-rand|%s|%s|%d|%d/%d", property, *variant, *seed, *shard, *nshards))}
 	defer func() {
 		if r := recover(); r != nil {
-			c.res.Panicked = fmt.Sprintf("%v\n%s", r, debug.Stack())
+			msg := fmt.Sprint(r)
+			if strings.HasPrefix(msg, "explore:") || strings.Contains(msg, "nondeterministic harness") || strings.Contains(msg, "VERIF_") {
+				// the explorer or the harness set-up itself is broken: an infrastructure error, not a verdict
+				c.res.Panicked = fmt.Sprintf("%v\n%s", r, debug.Stack())
+				c.write()
+				fmt.Fprintf(os.Stderr, "harness panic (infrastructure error): %v\n%s\n", r, debug.Stack())
+				os.Exit(2)
+			}
+			// Anything else stopped the check in the middle of exercising the code: the code under test panicked in a
+			// call the harness does not guard, or broke something every run on a correct tree relies on (the reference
+			// decoder opens what Encrypt wrote, a solo run succeeds, ...). On a tree where the property holds this does
+			// not happen (no run on the unchanged tree or on the behaviour-preserving refactorings ever got here), so it
+			// is reported as a violation with the panic and the stack, and the run is marked incomplete.
+			c.NotExhaustive("check aborted by a panic in part " + c.part)
+			c.Fail("check-aborted-by-panic", "panic", "the check was aborted by a panic while exercising the code: "+Clip(msg, 300), map[string]interface{}{"panic": msg, "stack": Clip(string(debug.Stack()), 3000)})
 			c.write()
-			fmt.Fprintf(os.Stderr, "harness panic (infrastructure error): %v\n%s\n", r, debug.Stack())
-			os.Exit(2)
 		}
 	}()
 	body(c)
